@@ -16,9 +16,13 @@ def check_module_buffers(ctx, rule, module_name, floor=0):
     seen = {}
     import ast as _ast
 
+    n_sites = 0
     for fname, fi in sorted(m.functions.items()):
         # only functions that syntactically allocate with np.*_like can contribute an instance
-        if not any(isinstance(n, _ast.Call) and isinstance(n.func, _ast.Attribute) and n.func.attr.endswith("_like") for n in _ast.walk(fi.node)):
+        alloc_names = ("empty", "zeros", "ones", "full")
+        allocs = [n for n in _ast.walk(fi.node) if isinstance(n, _ast.Call) and isinstance(n.func, _ast.Attribute) and (n.func.attr.endswith("_like") or n.func.attr in alloc_names)]
+        n_sites += len(allocs)
+        if not any(n.func.attr.endswith("_like") for n in allocs):
             continue
         for mode in (True, False):
             it = interp(ctx, array_mode=mode)
@@ -61,5 +65,7 @@ def check_module_buffers(ctx, rule, module_name, floor=0):
             "a result buffer allocated with np.*_like from a caller's array is given an explicit float dtype (it must not inherit an integer dtype and truncate the stored values)",
             signature="inherits dtype", dtype=rec["dtype"] or "inherited", receives_stores_or_float_fill=rec["needs"],
         )
-    ctx.floor(rule, n, floor, f"np.*_like allocations in {module_name}")
+    ctx.floor(rule, n_sites, floor, f"result-buffer allocations (np.empty/zeros/full[_like]) in {module_name}")
+    if n == 0 and n_sites:
+        ctx.ok(rule, f"{module_name}:no inherited-dtype allocation", m.relpath, "no result buffer is allocated with np.*_like (explicit shapes default to float64)", nontrivial=False, allocation_sites=n_sites)
     return n
